@@ -23,7 +23,7 @@ PROP = "C23"
 TECHNIQUE = "history checker: every request is also served by a twin non-caching loader over the same store at the same logical time"
 RULE = (
     "case = history of <= 12 steps over 3 names x namespaces {none, A, B}: requests (sync or async; environment with or without globals of its own; namespace by keyword argument, by render "
-    "context or absent; with unique globals or without), content edits of a stored source (dict mutation or file rewrite with an explicitly "
+    "context, by the render context of a host template whose include / render tag makes the request, or absent; with unique globals or without), deletions and content edits of a stored source (dict mutation or file rewrite with an explicitly "
     "bumped mtime) and gathered batches of concurrent async requests; loader kinds: caching dict, namespaced caching dict, caching choice "
     "(namespaced dict + dict), caching file system and namespaced caching file system; capacity 1..4; auto_reload on/off. Judged per "
     "request: exception class, template name, path, str(template), probe-render output and effective globals equal the twin's; with "
@@ -39,9 +39,9 @@ REQUIRED = [
     ("liquid/builtin/loaders/choice_loader.py", "ChoiceLoader.get_source"),
     ("liquid/builtin/loaders/file_system_loader.py", "FileSystemLoader.get_source_async"),
 ]
-MIN_COUNTERS = {"requests": 3000, "cache_hits": 500, "cache_misses": 500, "reloads_after_edit": 50, "evictions": 50, "namespaced_requests": 300, "gathered_requests": 50}
+MIN_COUNTERS = {"requests": 3000, "cache_hits": 500, "cache_misses": 500, "reloads_after_edit": 50, "evictions": 50, "namespaced_requests": 300, "gathered_requests": 50, "requests_via_tag": 300, "namespace_via_tag_context": 100, "deletions": 50}
 ASSUMPTIONS = [
-    "edits change the content of an existing source only (no deletions, no new shadowing entries)",
+    "edits change the content of an existing source, delete it, or re-create a deleted one; no new shadowing entries are added",
     "file edits bump the mtime explicitly by one second per edit, so no wall-clock sleeping is needed",
 ]
 
@@ -134,6 +134,16 @@ class Store:
         else:
             self.d[key] = text
 
+    def delete(self, key: str) -> bool:
+        if self.kind in ("fs", "nsfs"):
+            p = os.path.join(self.tmpdir, key)
+            if not os.path.exists(p):
+                return False
+            os.remove(p)
+            return True
+        d = (self.a if "/" in key else self.b) if self.kind == "choice" else self.d
+        return d.pop(key, None) is not None
+
     def loaders(self, auto_reload: bool, capacity: int):
         kw = {"auto_reload": auto_reload, "capacity": capacity}
         if self.kind == "dict":
@@ -179,6 +189,47 @@ def request(env: Environment, req: dict[str, Any], use_async: bool) -> drv.Outco
     return drv.call(env.get_template, req["name"], **kw)
 
 
+def tag_request(env: Environment, step: dict[str, Any]) -> dict[str, Any]:
+    g = dict(step.get("globals") or {})
+    if step["ns"] is not None:
+        g["ns"] = step["ns"]
+    host = env.from_string("{% " + step["tag"] + " '" + step["name"] + "' %}", globals=g)
+    o = drv.call_async(host.render_async) if step["async"] else drv.call(host.render)
+    if not o.ok:
+        return {"err": o.err_class, "msg": str(o.exc).split("\n")[0][:80]}
+    return {"err": None, "render": o.value}
+
+
+_KV = __import__("re").compile(r"<(.*?)@v(\d+)>")
+
+
+def key_version(text: str):
+    m = _KV.search(text or "")
+    return (m.group(1), int(m.group(2))) if m else None
+
+
+def compare_tag(got: dict[str, Any], exp: dict[str, Any], auto_reload: bool, deleted: set[str], seen: dict[str, set[int]]) -> str | None:
+    kg = key_version(got.get("render", "")) if got["err"] is None else None
+    ke = key_version(exp.get("render", "")) if exp["err"] is None else None
+    if not auto_reload and kg is not None and kg[0] in deleted and kg[1] in seen.get(kg[0], ()):
+        # without auto reload a cached template outlives its deleted source, whatever the twin now resolves the name to
+        if ke is None or _KV.sub("", got["render"]) == _KV.sub("", exp["render"]):
+            return None
+    if got["err"] != exp["err"]:
+        return f"outcome-differs:{got['err'] or 'ok'}-vs-twin-{exp['err'] or 'ok'}"
+    if got["err"] is not None or got["render"] == exp["render"]:
+        return None
+    if kg is None or ke is None:
+        return "output-differs"
+    if kg[0] != ke[0]:
+        return "other-key-substituted"
+    if auto_reload:
+        return "stale-source-after-edit"
+    if kg[1] in seen.get(kg[0], ()) and _KV.sub("", got["render"]) == _KV.sub("", exp["render"]):
+        return None  # an earlier version of the same key: permitted without auto reload
+    return "output-differs"
+
+
 async def _one(env: Environment, req: dict[str, Any]) -> dict[str, Any]:
     kw: dict[str, Any] = {}
     if req.get("globals") is not None:
@@ -209,12 +260,41 @@ def judge(ctx: core.Ctx, case: dict[str, Any]) -> None:
         seen_versions: dict[str, set[str]] = {}  # resolved key -> str() of every version the twin has served
         had_hit = False
         edited_since: set[str] = set()
+        deleted: set[str] = set()
+        seen_kv: dict[str, set[int]] = {}  # resolved key -> versions the twin has served (by any kind of request)
         for step_no, step in enumerate(case["steps"]):
             if step["op"] == "edit":
                 if step["key"] in store.version:
                     store.edit(step["key"], text_of(step["key"], store.version[step["key"]] + 1))
                     edited_since.add(step["key"])
                     ctx.count("edits")
+                continue
+            if step["op"] == "delete":
+                if store.delete(step["key"]):
+                    deleted.add(step["key"])
+                    ctx.count("deletions")
+                continue
+            if step["op"] == "tagget":
+                # the request is made by an include / render tag of a host template whose render context carries the namespace
+                got_t = tag_request(env_c, step)
+                exp_t = tag_request(env_p, step)
+                kv = key_version(exp_t.get("render", "")) if exp_t["err"] is None else None
+                if kv:
+                    seen_kv.setdefault(kv[0], set()).add(kv[1])
+                ctx.count("requests")
+                ctx.count("requests_via_tag")
+                if step["ns"] is not None:
+                    ctx.count("namespaced_requests")
+                    ctx.count("namespace_via_tag_context")
+                ctx.evaluations += 1
+                bad = compare_tag(got_t, exp_t, case["auto_reload"], deleted, seen_kv)
+                if bad:
+                    ctx.violation(
+                        f"{kind}:via-{step['tag']}:{bad}",
+                        lambda: f"{kind} auto_reload={case['auto_reload']} capacity={case['capacity']} step {step_no} {step}: through the caching loader the host renders {got_t}, "
+                        f"through the twin {exp_t}; history {case['steps'][: step_no + 1]}",
+                    )
+                    return
                 continue
             if step["op"] == "gather":
                 reqs = step["reqs"]
@@ -249,6 +329,16 @@ def judge(ctx: core.Ctx, case: dict[str, Any]) -> None:
                 api = "gather" if step["op"] == "gather" else ("async" if req.get("async") else "sync")
                 if exp["err"] is None:
                     seen_versions.setdefault(exp["path"], set()).add(exp["str"])
+                    kv = key_version(exp["str"])
+                    if kv:
+                        seen_kv.setdefault(kv[0], set()).add(kv[1])
+                kg = key_version(got["str"]) if got["err"] is None else None
+                if kg is not None and not case["auto_reload"] and kg[0] in deleted and kg[1] in seen_kv.get(kg[0], ()):
+                    # without auto reload a cached template outlives its deleted source, whatever the twin now resolves the name to;
+                    # the request's globals must still apply
+                    if exp["err"] is not None or got["globals"] == exp["globals"]:
+                        ctx.count("stale_template_of_deleted_source_accepted_without_auto_reload")
+                        continue
                 if got["err"] != exp["err"]:
                     sig = f"{kind}:outcome-differs:{got['err'] or 'ok'}-vs-twin-{exp['err'] or 'ok'}:{api}"
                     if got["err"] == "LiquidError" and "expected a boolean from uptodate" in got.get("msg", "") and api == "sync" and kind in ("fs", "nsfs"):
@@ -264,7 +354,8 @@ def judge(ctx: core.Ctx, case: dict[str, Any]) -> None:
                 if not diffs:
                     continue
                 src_fields = {"str", "render"}
-                if not case["auto_reload"] and set(diffs) <= src_fields and got["path"] == exp["path"] and got["str"] in seen_versions.get(exp["path"], ()):
+                kg2 = key_version(got["str"])
+                if not case["auto_reload"] and set(diffs) <= src_fields and got["path"] == exp["path"] and (got["str"] in seen_versions.get(exp["path"], ()) or (kg2 and kg2[1] in seen_kv.get(kg2[0], ()))):
                     # stale version of the same key: permitted without auto reload; globals must still be the request's
                     stale_ok = got["render"] == exp["render"].replace(exp["str"].split(">")[0], got["str"].split(">")[0])
                     if stale_ok:
@@ -316,9 +407,15 @@ def gen_case(rng, thorough: bool) -> dict[str, Any]:
     steps: list[dict[str, Any]] = []
     for _ in range(rng.randint(3, 12)):
         r = rng.random()
-        if r < 0.2:
+        if r < 0.04:
+            steps.append({"op": "delete", "key": rng.choice(keys)})
+        elif r < 0.2:
             steps.append({"op": "edit", "key": rng.choice(keys)})
-        elif r < 0.27:
+        elif r < 0.32:
+            ns = rng.choice(NSS) if namespaced else None
+            gid[0] += 1
+            steps.append({"op": "tagget", "tag": rng.choice(["include", "render"]), "name": rng.choice(NAMES), "ns": ns, "async": rng.random() < 0.5, "globals": {"g": f"G{gid[0]}"} if rng.random() < 0.5 else None})
+        elif r < 0.39:
             steps.append({"op": "gather", "reqs": [dict(gen_req(rng, gid, namespaced), **{"async": True}) for _ in range(rng.randint(2, 5))]})
         else:
             steps.append(gen_req(rng, gid, namespaced))
